@@ -83,11 +83,13 @@ PROPS = {
         ],
     },
     "C04": {
-        "modules": ["Hannibal.Props.C04", "Hannibal.Props.C04Current", "Hannibal.Props.C04Q", "Hannibal.Props.C04QCurrent"],
+        "modules": ["Hannibal.Props.C04", "Hannibal.Props.C04Current", "Hannibal.Props.C04Q", "Hannibal.Props.C04QCurrent", "Hannibal.Props.C04P", "Hannibal.Props.C04PCurrent"],
         "theorems": ["Hannibal.C04_holds", "Hannibal.C04_current", "Hannibal.wellWired04_current",
-                     "Hannibal.C04q_holds", "Hannibal.C04q_current", "Hannibal.wellWired04q_current", "Hannibal.monC04q_step"],
+                     "Hannibal.C04q_holds", "Hannibal.C04q_current", "Hannibal.wellWired04q_current", "Hannibal.monC04q_step", "Hannibal.C04p_holds", "Hannibal.C04p_current"],
         "cases": {"quick": {"C04": 1500}, "thorough": {"C04": 20000, "x:C04": 320, "C02": 3000, "C17": 3000}},
         "assumptions": COMMON_ASSUMPTIONS + [
+            "'no message submitted after an accepted stop request returned is ever handled', said of pings: monC04p is "
+            "theorem C04p_holds (fresh operation ids; witness c04pReuseOp)",
             "'(its call returns Ok)': monC02c in the chain - a call whose message was handled to completion does not return "
             "an error - is theorem C02c_holds (listed under C02)",
             "the drain-barrier clauses (monC04q: sends acknowledged before the first stop request are handled; nothing "
